@@ -87,12 +87,13 @@ Qed.
 Definition has_prefix (p : string) (s : string) : bool := prefix p s.
 Definition fuel := 4.
 
-(* which functions are allowed to let which classes through (the residual escapes are known findings) *)
+(* The functions nothing may leave, and the one class the others still let through (known finding:
+   AASDataChecker raises NotImplementedError for a SubmodelElementList with order_relevant=False) *)
+Definition closed_functions : list string :=
+  ["json.check_schema"; "json.check_deserialization"; "xml.check_schema"; "xml.check_deserialization";
+   "aasx.check_schema"; "aasx.check_deserialization"].
 Definition allowed_for (f : string) : list exc :=
-  if mem_str f ["json.check_schema"; "json.check_deserialization"; "xml.check_schema"; "xml.check_deserialization"]
-  then []
-  else if has_prefix "json." f || has_prefix "xml." f then [ENotImplemented]
-  else [EIndexError; EXMLSyntax; EKeyError; ENotImplemented; ETypeError; EBadZip; EZlib; EOSError].
+  if mem_str f closed_functions then [] else [ENotImplemented].
 
 Lemma total_check :
   forallb (fun f => esc_within (allowed_for f) (escapes functions fuel f)) public_functions = true.
@@ -104,10 +105,8 @@ Proof.
   intros Hf. pose proof total_check as H. rewrite forallb_forall in H. apply esc_within_spec. now apply H.
 Qed.
 
-Lemma total_schema_deser f :
-  In f ["json.check_schema"; "json.check_deserialization"; "xml.check_schema"; "xml.check_deserialization"] ->
-  escapes functions fuel f = EscOk [].
-Proof. intros [<-|[<-|[<-|[<-|[]]]]]; vm_compute; reflexivity. Qed.
+Lemma total_schema_deser f : In f closed_functions -> escapes functions fuel f = EscOk [].
+Proof. intros [<-|[<-|[<-|[<-|[<-|[<-|[]]]]]]]; vm_compute; reflexivity. Qed.
 
 Lemma total_refuted :
   exists f, In f public_functions /\ escapes functions fuel f <> EscOk [].
@@ -134,10 +133,7 @@ Qed.
 
 (* the attributes no checker method compares, over the whole class table *)
 Definition all_missing : list (string * string) := flat_map (missing checker_methods) class_table.
-Definition known_missing : list (string * string) :=
-  [("Qualifier", "semantic_id"); ("Qualifier", "supplemental_semantic_id")].
-
-Lemma missing_is_known : all_missing = known_missing.
+Lemma nothing_missing : all_missing = [].
 Proof. vm_compute. reflexivity. Qed.
 
 Lemma missing_spec cls m attrs a :
@@ -150,24 +146,23 @@ Proof.
 Qed.
 
 (* completeness of the comparison: if the checker's comparison of two objects of a class succeeds, the
-   objects agree on every metamodel attribute of the class, except the known missing ones *)
-Lemma equiv_complete_partial cls m attrs a b x :
+   objects agree on every metamodel attribute of the class *)
+Lemma equiv_complete cls m attrs a b x :
   In (cls, m, attrs) class_table -> compare_by (compared checker_methods 6 m) a b = true ->
-  In x attrs -> ~ In (cls, x) known_missing -> a x = b x.
+  In x attrs -> a x = b x.
 Proof.
-  intros Hrow Hc Hx Hk. eapply compare_by_complete; [exact Hc|].
-  eapply missing_spec; [exact Hrow|exact Hx|]. now rewrite missing_is_known.
+  intros Hrow Hc Hx. eapply compare_by_complete; [exact Hc|].
+  eapply missing_spec; [exact Hrow|exact Hx|]. rewrite nothing_missing. intros [].
 Qed.
 
-Lemma equiv_complete_refuted :
-  exists cls m attrs x (a b : record),
-    In (cls, m, attrs) class_table /\ In x attrs /\
-    compare_by (compared checker_methods 6 m) a b = true /\ a x <> b x.
+(* the comparison is not vacuous: a difference in a compared attribute is seen *)
+Lemma equiv_detects_example :
+  exists (a b : record),
+    compare_by (compared checker_methods 6 "_check_qualifier_equal") a b = false /\
+    (forall x, x <> "semantic_id" -> a x = b x).
 Proof.
-  exists "Qualifier", "_check_qualifier_equal",
-         ["type"; "value_type"; "value"; "value_id"; "kind"; "semantic_id"; "supplemental_semantic_id"],
-         "semantic_id", (fun _ => 0), (fun x => if String.eqb x "semantic_id" then 1 else 0).
-  split; [vm_compute; tauto|]. split; [vm_compute; tauto|]. split; [vm_compute; reflexivity|vm_compute; discriminate].
+  exists (fun _ => 0), (fun x => if String.eqb x "semantic_id" then 1 else 0). split; [vm_compute; reflexivity|].
+  intros x Hx. destruct (String.eqb_spec x "semantic_id"); [contradiction|reflexivity].
 Qed.
 
 (* non-vacuity of the tables *)
